@@ -378,7 +378,9 @@ class AsyncFIXConnection:
                     if tm - self._message_last_time > self._heartbeat_period - 1:
                         if not self._test_req_id:
                             await self.send_test_req()
-                        self._message_last_time = tm
+                            # the peer gets two intervals from now; while the probe is
+                            # outstanding only valid inbound traffic moves the clock
+                            self._message_last_time = tm
 
                 if (
                     self._message_last_time
@@ -391,6 +393,7 @@ class AsyncFIXConnection:
                 if (
                     self._test_req_id
                     and tm - self._test_req_id > self._heartbeat_period * 2
+                    and tm - self._message_last_time > self._heartbeat_period * 2
                 ):
                     # No sensible reply on TestRequest
                     self.log.debug("heartbeat_timer_task: test request timeout")
